@@ -311,21 +311,23 @@ def main():
         r = sh([binary, 'genplan', '--seed', str(cseed), '--prop', pid, '--tier', tier], cwd=VERIF)
         lines = [l for l in r.stdout.splitlines() if l.strip()] + ['property=' + pid, 'seed=%d' % cseed]
         rep = run_replay(binary, lines, pid, tmpdir)
-        if rep['kind'] != 'crash':
-            sim_faults.append('seed %d: worker died (rc=%d) but the seed does not crash in isolation (%s)' % (cseed, rc, rep['kind']))
+        if rep['kind'] not in ('crash', 'violation'):
+            sim_faults.append('seed %d: worker died (rc=%d) but the seed neither crashes nor fails in isolation (%s)' % (cseed, rc, rep['kind']))
             continue
-        cls = rep['cls']
+        # (a worker may also die while minimising an ordinary violation because a smaller candidate crashes the process;
+        #  the seed itself then shows the ordinary violation here and is minimised below with every candidate in its own process)
+        kind, cls = rep['kind'], rep['cls']
         if seen_crash.get(cls, 0) >= 2:
             seen_crash[cls] += 1
             continue
         seen_crash[cls] = seen_crash.get(cls, 0) + 1
-        lines, nrer = minimise_crash(binary, lines, pid, cls, tmpdir)
+        lines, nrer = minimise_isolated(binary, lines, pid, kind, cls, tmpdir)
         rep2 = run_replay(binary, lines, pid, tmpdir)
-        if rep2['kind'] != 'crash' or rep2['cls'] != cls:
-            sim_faults.append('seed %d: crash %s did not reproduce after minimisation' % (cseed, cls))
+        if rep2['kind'] != kind or rep2['cls'] != cls:
+            sim_faults.append('seed %d: %s %s did not reproduce after minimisation' % (cseed, kind, cls))
             continue
         jpath = os.path.join(VERIF, 'replays', '%s-%d.json' % (pid, cseed))
-        d = plan_to_replay_json(pid, engine, variant, cseed, '\n'.join(lines), cls, rep2['msg'], '')
+        d = plan_to_replay_json(pid, engine, variant, cseed, '\n'.join(lines), cls, rep2['msg'], rep2.get('hash', ''))
         d['expect']['minimise_reruns'] = nrer
         json.dump(d, open(jpath, 'w'), indent=1)
         k = match_known(known, pid, cls, rep2['msg'])
@@ -385,7 +387,7 @@ def main():
         return 2
     return 0
 
-def minimise_crash(binary, lines, pid, cls, tmpdir, budget=150):
+def minimise_isolated(binary, lines, pid, kind, cls, tmpdir, budget=150):
     """class-preserving greedy minimisation for runs that kill the process: every candidate runs in a fresh process"""
     n = 0
     improved = True
@@ -400,7 +402,7 @@ def minimise_crash(binary, lines, pid, cls, tmpdir, budget=150):
                 break
             n += 1
             rep = run_replay(binary, c, pid, tmpdir, timeout=120)
-            if rep['kind'] == 'crash' and rep['cls'] == cls:
+            if rep['kind'] == kind and rep['cls'] == cls:
                 lines = c
                 improved = True
                 break
@@ -430,7 +432,15 @@ def replay_file(path):
 RULES = {
     'C13': 'Indices 0..2*14760-1 enumerate every (kernel, rows 0..40, threads 1..24) triple for 15 multithreaded kernels under S0 and S1 in the sim variant, and once more in the asan variant; further indices draw random kernels, shapes up to 60x10, thread counts 1..24 and strategies S0-S4.',
 }
-ASSUMPTIONS = {}
+RULES.update({
+    'C06': 'Each seed draws a data set (6..24 x 1..5, 1..2 responses or class labels), a learner (PLS/MLR/LDA), a routine (BootstrapRandomGroupsCV, YScrambling over LOO / over bootstrap, KMeansRandomGroupsCV, PCARankValidation, concurrent group-generator callers), a thread count (bootstrap: a divisor of the iteration count), a simulated processor count, a strategy S0-S4, a clock origin and optionally a concurrent noise caller of the generator API; three simulated executions per seed (sequential reference, canonical schedule, explored schedule).',
+    'C05': 'Each seed draws a data set (6..30 x 1..6, 1..3 responses), a learner, a routine (LeaveOneOut, KFoldCV with balanced/unbalanced/non-contiguous user labels, BootstrapRandomGroupsCV, direct calls of the group generators), group/iteration/thread counts and a schedule; oracles: partition, public-API refit on the other folds, own-response insensitivity, fold inference for one-iteration bootstrap, finite predictions, residual definition.',
+    'C16': 'Each seed draws a pool of 2..4 PCA/CPCA/PLS models (fitted on data scaled by 1e-9..1e9, or synthetic with fields of those magnitudes and empty optional fields) and a history of 1..5 Write/Read operations over 1..2 paths; 40% of histories attach one fault to one write (I/O error, disk full, short write, kill with or without torn last write) at a VFS call drawn uniformly over the call count of that very operation (measured by a dry run on a copy). Reads are checked against a reference map path -> last write that completed without a fault.',
+})
+ASSUMPTIONS = {
+    'C16': ['durability across power loss is not asserted (the property does not quantify over crash points)', 'a path whose last write was faulted is indeterminate until the next clean write and is not read', 'failed opens of the database file itself are not injected (the library does not survive them; not a C16 matter)'],
+    'C06': ['for fork-join code a race-free execution on an input implies schedule independence on that input (Feng-Leiserson); unknown synchronisation primitives downgrade race reports'],
+}
 
 if __name__ == '__main__':
     sys.exit(main())
